@@ -60,8 +60,11 @@ def build_heuristic(h, view, Vstar):
     return tab
 
 
-def is_monotone(tab, view, tol=1e-9):
-    """h(s) >= max_a sum_t p (r + gamma h'(t)) with h'(absorbing)=0, at every non-absorbing state."""
+def is_monotone(tab, view, tol=4e-16):
+    """h(s) >= max_a sum_t p (r + gamma h'(t)) with h'(absorbing)=0, at every non-absorbing state.
+    The tolerance is rounding error only: a heuristic that violates the inequality by 1e-9 per state (rewards of
+    1e-9 under a constant bound) lets values rise by 1e-9 per level, which adds up beyond any per-step tolerance
+    of the clauses that assume monotonicity - such a heuristic is simply not monotone."""
     g = view.gamma
     for s in range(view.N):
         if s in view.absorbing:
